@@ -248,6 +248,30 @@ def owner_death_programs():
             yield ("leak:owner-dies-after-measure:%s:%s:reset-then-gate-accepted" % (dn, "x" if prep == "x(s);" else "hx"), c03.LEAK_CLS + "\n".join(lines) + "\n", None, base + 6)
 
 
+def recycled_register_programs():
+    """(seed C06-5) a REGISTER handle that outlives its owner, where the register was built from recycled simulator indices (earlier objects
+    died first, so its indices are neither ascending nor contiguous): measured, owner dead, never reset - a gate or measurement through any
+    element of the copy is refused at that line; after 'reset' of that element it is accepted. -> same tuple shape as leak_programs"""
+    for n in (2, 3):
+        cls = ("class Reg { public qubit[%d] qs; public constructor() -> Reg = default; }\nclass One { public qubit q; public constructor() -> One = default; }\n"
+               "function scratchReg() -> void { Reg t = new Reg(); h(t.qs[1]); }\nfunction scratchOne() -> void { One t = new One(); h(t.q); }\n" % n)
+        warm = {"none": "", "reg": "scratchReg();", "one+reg": "scratchOne(); scratchReg();", "reg+one": "scratchReg(); scratchOne();", "reg+reg": "scratchReg(); scratchReg();"}
+        for wn, wsrc in warm.items():
+            for mform in ("whole", "element"):
+                for k in range(n):
+                    for use in ("x(hs[%d]);" % k, "measure hs[%d];" % k, "cx(hs[%d], hs[%d]);" % ((k + 1) % n, k)):
+                        for fixed in (False, True):
+                            msrc = "measure r.qs;" if mform == "whole" else "measure r.qs[%d];" % k
+                            fn = cls + "function grab() -> qubit[] { Reg r = new Reg(); x(r.qs[%d]); %s return r.qs; }\n" % (k, msrc)
+                            body = ["function use(qubit[] hs) -> void {"] + (["reset hs[%d];" % k] if fixed else []) + [use, "echo(\"end\");", "}"]
+                            base = fn.count("\n") + 1
+                            src = fn + "\n".join(body) + "\nfunction main() -> void { qubit pad; %s use(grab()); }\n" % wsrc
+                            refuse = None if fixed else base + 1
+                            if fixed and use.startswith("cx") and mform == "whole":
+                                continue        # the control is measured too: covered by the unfixed case
+                            yield ("leak:recycled-register:n%d:%s:%s:%d:%s:%s" % (n, wn, mform, k, use.split("(")[0].split(" ")[0], "reset-first" if fixed else "must-refuse"), src, refuse, refuse or base + 1)
+
+
 def _leak_one(item):
     name, src, must_refuse, stale_line = item
     r = vdrv.run_src(src, gc="own", warn=0)
@@ -293,7 +317,7 @@ def main(tier):
     res = simlevel.run_all([["bfs", "full", 3, 8 if tier != "thorough" else 10]])
     simlevel.report(ck, res, {"C06"})
     nleak = 0
-    for name, src, prob in vdrv.pmap(_leak_one, list(leak_programs()) + list(owner_death_programs()), chunksize=4):
+    for name, src, prob in vdrv.pmap(_leak_one, list(leak_programs()) + list(owner_death_programs()) + list(recycled_register_programs()), chunksize=4):
         nleak += 1
         if prob:
             ck.violation(":".join(name.split(":")[:2] + name.split(":")[3:]) + ":" + prob.split(" ")[0], "%s\ncase %s\nprogram:\n%s" % (prob, name, src),
